@@ -1,5 +1,6 @@
 /- REQ's direct `get_rank` and the sorted view's rank are both the weight below the query point. (Helper lemmas.) -/
 import DSProofs.Lemmas.ReqIter
+import DSProofs.Lemmas.SortedView
 namespace DS.Req
 
 variable {ρ : Type}
@@ -28,25 +29,21 @@ theorem sortedV_map (l : List Int) (w : Nat) (h : Sorted l) : SortedV (l.map (fu
   simp only [SortedV, List.pairwise_map]; exact h
 
 theorem mem_merge (x : Int × Nat) (a b : List (Int × Nat)) : x ∈ SortedView.merge ltInt a b ↔ x ∈ a ∨ x ∈ b := by
-  fun_induction SortedView.merge ltInt a b with
-  | case1 r => simp
-  | case2 a l => simp
-  | case3 a l b r hlt ih => simp only [List.mem_cons, ih]; grind
-  | case4 a l b r hlt ih => simp only [List.mem_cons, ih]; grind
+  rw [(SortedView.merge_perm ltInt a b).mem_iff, List.mem_append]
 
 theorem wBelow_merge (q : Int → Bool) (a b : List (Int × Nat)) :
     wBelow q (SortedView.merge ltInt a b) = wBelow q a + wBelow q b := by
-  fun_induction SortedView.merge ltInt a b with
-  | case1 r => simp [wBelow]
-  | case2 a l => simp [wBelow]
-  | case3 a l b r hlt ih => obtain ⟨y, w⟩ := b; simp only [wBelow] at ih ⊢; omega
-  | case4 a l b r hlt ih => obtain ⟨y, w⟩ := a; simp only [wBelow] at ih ⊢; omega
+  refine SortedView.merge_induction ltInt (motive := fun a b m => wBelow q m = wBelow q a + wBelow q b) ?_ ?_ ?_ ?_ a b
+  · intro r; simp [wBelow]
+  · intro a l; simp [wBelow]
+  · intro a l b r hlt ih; obtain ⟨y, w⟩ := b; simp only [wBelow] at ih ⊢; omega
+  · intro a l b r hlt ih; obtain ⟨y, w⟩ := a; simp only [wBelow] at ih ⊢; omega
 
 theorem sortedV_merge (a b : List (Int × Nat)) (ha : SortedV a) (hb : SortedV b) : SortedV (SortedView.merge ltInt a b) := by
-  fun_induction SortedView.merge ltInt a b with
-  | case1 r => exact hb
-  | case2 a l => exact ha
-  | case3 a l b r hlt ih =>
+  refine SortedView.merge_induction ltInt (motive := fun a b m => SortedV a → SortedV b → SortedV m) ?_ ?_ ?_ ?_ a b ha hb
+  · intro r _ hb; exact hb
+  · intro a l ha _; exact ha
+  · intro a l b r hlt ih ha hb
     simp only [ltInt, decide_eq_true_eq] at hlt
     simp only [SortedV, List.pairwise_cons] at ha hb ⊢
     refine ⟨?_, ih (by simp only [SortedV, List.pairwise_cons]; exact ha) hb.2⟩
@@ -56,7 +53,7 @@ theorem sortedV_merge (a b : List (Int × Nat)) (ha : SortedV a) (hb : SortedV b
       · omega
       · have := ha.1 z h; omega
     · exact hb.1 z h
-  | case4 a l b r hlt ih =>
+  · intro a l b r hlt ih ha hb
     simp only [ltInt, decide_eq_true_eq] at hlt
     simp only [SortedV, List.pairwise_cons] at ha hb ⊢
     refine ⟨?_, ih ha.2 (by simp only [SortedV, List.pairwise_cons]; exact hb)⟩
@@ -115,15 +112,15 @@ theorem wBelow_zero_of_sorted (x : Int) (inc : Bool) (y : Int) (t : List (Int ×
     cases inc <;> simp [ltInt] at hy ⊢ <;> omega
 
 theorem rankGo_spec (x : Int) (inc : Bool) (raw : List (Int × Nat)) : ∀ (a : Nat), SortedV raw →
-    SortedView.rankNum.go ltInt x inc (SortedView.cumulate a raw) a
+    SortedView.rankGo ltInt x inc (SortedView.cumulate a raw) a
       = a + wBelow (fun z => if inc then decide (z ≤ x) else decide (z < x)) raw := by
   induction raw with
-  | nil => intro a _; simp [SortedView.cumulate, SortedView.rankNum.go, wBelow]
+  | nil => intro a _; simp [SortedView.cumulate, SortedView.rankGo, wBelow]
   | cons e t ih =>
     intro a hs
     obtain ⟨y, w⟩ := e
     simp only [SortedV, List.pairwise_cons] at hs
-    simp only [SortedView.cumulate, SortedView.rankNum.go, wBelow]
+    simp only [SortedView.cumulate, SortedView.rankGo, wBelow]
     cases inc
     · simp only [Bool.false_eq_true, if_false]
       by_cases hyx : y < x
